@@ -394,7 +394,8 @@ oscore_validate_sender_seq(oscore_recipient_ctx_t *ctx, cose_encrypt0_t *cose) {
                   incoming_seq);
     return 0;
   } else { /* incoming_seq < last_seq */
-    uint64_t shift = ctx->last_seq - incoming_seq - 1;
+    /* B0 is last_seq itself, so incoming_seq is tracked in bit (last_seq - incoming_seq) */
+    uint64_t shift = ctx->last_seq - incoming_seq;
     uint64_t pattern;
 
     if (shift > ctx->osc_ctx->replay_window_size || shift > 63) {
